@@ -39,6 +39,19 @@ PHI = {
 #: of the samples, which a later baseline sample exceeds by chance (measured: up to 0.70 too early)
 PHI_NOISE_FREE = {"deviation_from_baseline": 0.03}
 ONE_SIDED_WITH_NOISE = ("deviation_from_baseline",)
+#: the errors are not symmetric: these estimators are biased towards the indentation (late), so on curves whose true
+#: contact lies at >= EARLY_FROM of the approach samples the early side has its own, tighter bound
+#: (idx - true >= -PHI_EARLY x approach samples).  Measured most-early errors over 39 000 such clean curves
+#: (calibration seeds 1-3): 0.000 / 0.067 / 0.078 / 0.017.  (With a shorter baseline the fitting estimators
+#: occasionally return index 0, 6 of 67 000 curves: that stays within PHI.)  A fallback to the middle of the data on
+#: a curve with 80 % baseline is 0.3 too early
+EARLY_FROM = 0.4
+PHI_EARLY = {
+    "fit_constant_line": 0.05,
+    "fit_constant_polynomial": 0.12,
+    "fit_line_polynomial": 0.12,
+    "frechet_direct_path": 0.05,
+}
 
 RULE = ("Hypothesis draws (a) 'synth': a synthetic approach+retract curve (5 models, parameters over 4 decades, "
         "60-3000 samples per segment, baseline 20-80 % of the approach samples, linear/jittered/quadratic "
@@ -63,6 +76,11 @@ ASSUMPTIONS = [
     "force range, no tilt, all five models, baseline 20-80 %%) on the repaired tree (tools/calibrate_c08.py: measured "
     "0.125 late side / 0.399 / 0.219 / 0.300 / 0.431 / 0.317 in the order of the estimator list); the maxima of a run "
     "are reported as max_err_<estimator>" % (PHI,),
+    "early side: fit_constant_line / fit_constant_polynomial / fit_line_polynomial / frechet_direct_path are biased "
+    "towards the indentation, so on curves whose true contact lies at >= 40 %% of the approach samples "
+    "idx - true >= -phi_early x approach samples with phi_early = %r (measured most-early errors 0.000 / 0.067 / 0.078 / "
+    "0.017 over 39000 such clean curves, calibration seeds 1-3; with a shorter baseline the fitting estimators return "
+    "index 0 on 6 of 67000 clean curves, which stays within phi)" % (PHI_EARLY,),
     "deviation_from_baseline: noise-free curves are bounded by phi = %r (measured 0.014); on low-noise curves only "
     "the late side (idx - true <= phi) is asserted, because the documented algorithm triggers on the first sample above "
     "twice the largest deviation among the first 10 %% of the samples and a later baseline sample exceeds that by "
@@ -334,9 +352,16 @@ def check_clean(case, ctx):
         if abs(err) <= phi:
             key = "max_err_" + m + ("_noise_free" if m in PHI_NOISE_FREE and not curve["noise"] else "")
             ctx.extra[key] = max(ctx.extra.get(key, 0.0), abs(err))
+        early = m in PHI_EARLY and true_idx >= EARLY_FROM * n_app
+        if early and -PHI_EARLY[m] <= err < 0:
+            ctx.extra["max_early_" + m] = max(ctx.extra.get("max_early_" + m, 0.0), -err)
         ctx.check(abs(err) <= phi, "far-from-true-contact", dict(desc, model=curve["model"]),
                   f"index {int(idx)}, true contact index {true_idx}: error {err:+.3f} of the {n_app} approach samples, "
                   f"phi = {phi} (noise {curve['noise']}, sampling {curve['sampling']})")
+        if early:
+            ctx.check(err >= -PHI_EARLY[m], "too-early-contact", dict(desc, model=curve["model"]),
+                      f"index {int(idx)}, true contact index {true_idx}: error {err:+.3f} of the {n_app} approach "
+                      f"samples, early-side phi = {PHI_EARLY[m]} (noise {curve['noise']}, sampling {curve['sampling']})")
 
 
 def check_degenerate(case, ctx):
